@@ -10,7 +10,7 @@ import (
 var namePool = []string{"a", "A", "b", "B", "ab", "aB", "a b", "a%41", "\xff", "a=b", "a&b", "x.y", "a+b", "%", "a;b", "-", "a#b",
 	"a?b", "a/b", "", "\x00", "\xc3\xbc", "\xc3\x9c", "json", "0", "a.0", "q[]", "a\n", " a", "Content-Type", "cookie"}
 var valPool = []string{"", "1", "a b", "%41", "+", "&=", "\x00", "\xff", "\xc3\xbc", "a#b", "%", "%4", "%zz", "a;b", "\n", "=", "%25",
-	"a%2", "%%41", "\\u0041", "\"", "\\", "<x a='1'>", " ", "  v  ", "v;", "a,b", "\x7f", "\xfe\xff", "0123456789abcdefghijklmnopqrstuvwxyz"}
+	"a%2", "%%41", "\\u0041", "\"", "\\", "<x a='1'>", " ", "  v  ", "v;", "a,b", "\x7f", "\xfe\xff", "0123456789ab"}
 
 func randBytes(r *rand.Rand, n int) string {
 	b := make([]byte, n)
@@ -220,13 +220,17 @@ func (rn *runner) generate() error {
 
 	// 4. ProcessURI
 	// 4a. round trip of pair lists through the query string, argument limits around n
-	for i := 0; i < cfg.Pick(700, 20000); i++ {
+	for i := 0; i < cfg.Pick(450, 20000); i++ {
 		limited := r.Intn(2) == 0
 		l := genPairs(r, limited)
 		c := &caseJSON{Kind: "uri", Via: "query", Orig: pairsHex(l)}
 		if limited {
 			n := distinctFolded(l)
-			if n > 6 { // the order oracle is enumerated for up to 6 groups
+			exact := map[string]bool{}
+			for _, p := range l {
+				exact[p.K] = true
+			}
+			if len(exact) > 6 { // the order oracle is enumerated for up to 6 groups of the parsed map
 				continue
 			}
 			c.Limit = []int{1, 2, n - 1, n, n + 1, len(l)}[r.Intn(6)]
@@ -255,7 +259,7 @@ func (rn *runner) generate() error {
 	}
 	// 4b. raw URIs: exhaustive small scope over the URI metacharacters
 	enumerate("/?#=&a%\\.", cfg.Pick(3, 4), func(s string) { _ = run(&caseJSON{Kind: "uri", URIHex: hx(s)}) })
-	for i := 0; i < cfg.Pick(300, 6000); i++ {
+	for i := 0; i < cfg.Pick(200, 6000); i++ {
 		c := &caseJSON{Kind: "uri", URIHex: hx(randFrom(r, "/?#=&aA%4z+\\.: *", 1+r.Intn(14)))}
 		if r.Intn(3) == 0 {
 			c.URIHex = hx("/" + randFrom(r, "/?#=&aA%4z+\\.;", r.Intn(14)))
@@ -313,7 +317,7 @@ func (rn *runner) generate() error {
 
 	// 6. request bodies
 	// 6a. round trip through a urlencoded body
-	for i := 0; i < cfg.Pick(400, 10000); i++ {
+	for i := 0; i < cfg.Pick(250, 10000); i++ {
 		l := genPairs(r, false)
 		body := encQueryCanon(l)
 		if r.Intn(2) == 0 {
@@ -330,7 +334,7 @@ func (rn *runner) generate() error {
 	}
 	// 6b. processor selection matrix
 	bodies := []string{"a=1&A=2&a=3", "{\"a\":1}", "{\"a\":", "<r a=\"1\">t</r>", "<r><unclosed></r>", "", "\x00\xff&=%", "x", "[1,2", "nul"}
-	for i := 0; i < cfg.Pick(500, 10000); i++ {
+	for i := 0; i < cfg.Pick(350, 10000); i++ {
 		c := &caseJSON{Kind: "body", Access: r.Intn(5) != 0, Force: r.Intn(3) == 0, Ctl: ctlPool[r.Intn(len(ctlPool))],
 			BodyHex: hx(bodies[r.Intn(len(bodies))])}
 		var hs []pair
@@ -348,7 +352,7 @@ func (rn *runner) generate() error {
 		}
 	}
 	// 6c. JSON trees (ctl:requestBodyProcessor=JSON), depth limits
-	for i := 0; i < cfg.Pick(700, 20000); i++ {
+	for i := 0; i < cfg.Pick(450, 20000); i++ {
 		t := genTree(r, 3)
 		if r.Intn(4) == 0 { // an object of strings built from a pair list
 			l := genPairs(r, true)
